@@ -3,7 +3,9 @@
 
     /venv/bin/python corpus/c04_F2_candidate_check.py [patched tree, default /tmp/wt_fix_c04_f2] [seed]
 
-The patched tree is a scratch worktree of /repo with the diff applied.  Streams (all exact):
+The patched tree is a scratch worktree of /repo with the diff applied:
+    git -C /repo worktree add --detach /tmp/wt_fix_c04_f2 HEAD && git -C /tmp/wt_fix_c04_f2 apply <verif>/corpus/c04_F2_candidate_fix.diff
+    (afterwards: git -C /repo worktree remove --force /tmp/wt_fix_c04_f2)  Streams (all exact):
   split      OP4._split_strings(ind, maxlen) of the patched tree  ==  `splitStrings` (driver op `spl`)
   file       bytes written by the patched `op4.write(binary=True)`  ==  `encFileBytesFx` (driver op `encfx`), random
              small files in every layout / byte order / input type, and the long-string files on both sides of every
